@@ -248,7 +248,7 @@ def oracle(case):
         except ValueError:
             return None   # rejected at construction: allowed
         return 'a LogLikelihood that was constructed without error raises on evaluation: %s' % e
-    ref_pw, start = [], 3
+    ref_pw, start, groups = [], 3, []
     for o, (g, ys, k) in enumerate(zip(case['grids'], case['obs'], case['kinds'])):
         npar = 2 if k == 'CMG' else 1
         par = th[start:start + npar]
@@ -257,6 +257,10 @@ def oracle(case):
             t = z / DEN
             m = th[0] * (1 + o) + th[1] * t + th[2] * t * t * o
             ref_pw.append(c04.ref_logpdf(k, par, m, y))
+            groups.append((o, z))
+    # "output by output in time order": replicate measurements at one time point may be listed in any order
+    canon = lambda vals: [v for _, v in sorted(zip(groups, vals), key=lambda gv: (gv[0], gv[1]))] \
+        if len(vals) == len(groups) else list(vals)
     ref = sum(ref_pw)
     if ref == -math.inf:
         if res['ll'] != -math.inf:
@@ -267,7 +271,7 @@ def oracle(case):
     if core.relerr(res['ll'], ref) > 1e-8:
         return 'log-likelihood %r is not the sum %r of the log-densities of all measurements given the ' \
                'prediction for the same output and time' % (res['ll'], ref)
-    if len(res['pw']) != len(ref_pw) or any(core.relerr(a, b) > 1e-8 for a, b in zip(res['pw'], ref_pw)):
+    if len(res['pw']) != len(ref_pw) or any(core.relerr(a, b) > 1e-8 for a, b in zip(canon(res['pw']), canon(ref_pw))):
         return 'pointwise log-likelihoods %r differ from the per-measurement log-densities %r' % (res['pw'], ref_pw)
     if core.relerr(sum(res['pw']), res['ll']) > 1e-9:
         return 'pointwise values sum to %r, total is %r' % (sum(res['pw']), res['ll'])
@@ -275,6 +279,23 @@ def oracle(case):
         return 'score differs between evaluations: __call__ %r, evaluateS1 %r, __call__ again %r' % (
             res['ll'], res['s1'], res['ll_again'])
     return None
+
+
+def long_case(rng):
+    n_out = rng.choice([1, 2])
+    kinds = [rng.choice(KINDS) for _ in range(n_out)]
+    th = [rng.uniform(2.0, 6.0), rng.uniform(0.0, 0.5), rng.uniform(0.0, 0.05)]
+    grids, obs, err = [], [], []
+    big = rng.random() < 0.5
+    for o, k in enumerate(kinds):
+        n = rng.choice([300, 600, 1200])
+        g = sorted(rng.randint(0, 160) for _ in range(n))
+        grids.append(g)
+        obs.append([(th[0] * (1 + o) + th[1] * (z / DEN) + th[2] * (z / DEN) ** 2 * o) * rng.uniform(0.9, 1.1) for z in g])
+        scale = rng.uniform(40.0, 100.0) if big else rng.uniform(0.02, 0.2)
+        err += [scale, scale / 10] if k == 'CMG' else [scale]
+    return {'n_out': n_out, 'n_em': n_out, 'grids': grids, 'obs': obs, 'counts': [2 if k == 'CMG' else 1 for k in kinds],
+            'kinds': kinds, 'theta': th + err, 'pattern': 'long', 'invalid': None}
 
 
 def key_of(case, what):
@@ -338,11 +359,24 @@ def run(ck):
         ck.case({'case': case, 'chi': {'ll': res['ll'], 'pw': res['pw']}})
         num_cases.append((label, num_props(case, res)))
         payload[label] = case
+    # long series (hundreds of measurements per output, scales far from 1): too long for the certified route, checked
+    # directly against the summed documented log-densities and the pointwise values
+    for j in range(ck.n(8, 40)):
+        case = long_case(random.Random(ck.seed * 47 + j))
+        ck.count('long series')
+        ck.case({'long': {'n': [len(g) for g in case['grids']], 'kinds': case['kinds'], 'theta': case['theta']}})
+        try:
+            d = oracle(case)
+        except Exception as e:
+            d = 'chi raised %s: %s' % (type(e).__name__, e)
+        if d:
+            ck.violation(key_of(case, ''), d, case)
     ck.cov['rule'] = ('exact: 1-4 outputs, grids drawn with repetition from a pool of 6 dyadic times in the '
                       'patterns random/distinct/identical/nested/disjoint/coincidence/tied, 18% invalid '
                       'constructions (negative, unsorted, shape, counts), 1-3 parameters per recording error '
                       'model; numeric: 1-3 outputs, the four real error models assigned at random, 10% outside '
-                      'the support, each evaluated fresh and after a history through a shared in-place buffer; '
+                      'the support, each evaluated fresh and after a history through a shared in-place buffer; long series of '
+                      '300-1200 measurements per output at small and large scales checked directly; '
                       'distinct = distinct case description; all cases exercise a real chi.LogLikelihood')
     ck.log('certifying %d numeric cases' % len(num_cases))
     badn = ck.numeric('score', HEADER_NUM, UNFOLD_NUM, num_cases, shard=6)
